@@ -555,7 +555,7 @@ impl Prop for P {
             },
             Tier::Thorough => Plan {
                 workers: 16,
-                cases_per_worker: 200000,
+                cases_per_worker: 500000,
                 timeout_s: 14400,
                 max_shrink_iters: 2000,
             },
